@@ -169,6 +169,30 @@ def _chunk(job):
   return res
 
 
+def _single(job):
+  """One literal containing a newline, alone in a one-fact / one-rule program (no UNION ALL, no sub-query): the
+  value comes back exactly.  (The known finding is about the indentation of UNION ALL arms and sub-queries.)"""
+  form, shape, s = job
+  from vlib import run as R
+  l = FORMS[form](s)
+  if l is None:
+    return None
+  text = '@Engine("sqlite");\n' + (('T(1, %s);\n' % l) if shape == 'fact' else
+                                    ('N(1);\nT(x, %s) :- N(x);\n' % l) if shape == 'rule_head' else
+                                    ('@DefineFlag("f", %s);\nT(1, FlagValue("f"));\n' % l))
+  try:
+    prog = R.compile_program(text)
+    pre, main = R.statements_for(prog, 'T')
+    rows, cols = R.execute(R.connect(), pre, main)
+    v = rows[0][1]
+  except Exception as e:
+    v = '<%s: %s>' % (type(e).__name__, str(e)[:200])
+  if v != s:
+    return {'form': form, 'position': 'single-' + shape, 'string': s, 'literal': l, 'program': text,
+            'detail': 'SQLite returned %r, the program says %r' % (v, s)}
+  return None
+
+
 def e2e(tier, seed):
   ss = strings(tier, seed)
   jobs = []
@@ -178,14 +202,21 @@ def e2e(tier, seed):
         continue
       for k in range(0, len(ss), 60):
         jobs.append((form, position, ss[k:k + 60]))
+  nl = [x for x in ss if '\n' in x][:40 if tier == 'quick' else 400]
+  singles = [(form, shape, x) for form in ('sq', 'tq') for shape in ('fact', 'rule_head', 'flag_default') for x in nl]
   with multiprocessing.get_context('fork').Pool(16) as pool:
     rs = pool.map(_chunk, jobs)
+    sv = [v for v in pool.map(_single, singles) if v]
+  if sv:
+    rs.append({'evaluations': 0, 'violation': sv[0]})
+  rs.append({'evaluations': len(singles), 'violation': None})
   out = {'name': 'C10-sqlite-roundtrip', 'evaluations': sum(r['evaluations'] for r in rs),
          'distinct_nontrivial': sum(r['evaluations'] for r in rs), 'violations': [],
          'samples': [{'form': 'sq', 'position': 'record', 'string': "'; DROP TABLE T; --", 'returned': 'same'}],
          'rule': 'T(<literal>) and T(FlagValue(f)) through the real compiler and SQLite return the string character '
                  'for character: %d strings (all single characters of a 31-character alphabet, all pairs over 18 '
-                 'specials, triples exhaustive/sampled, injection classics) x 3 literal forms x 6 positions' % len(ss)}
+                 'specials, triples exhaustive/sampled, injection classics) x 3 literal forms x 6 positions; strings with a '
+                 'newline additionally alone in a one-fact / one-rule / flag-default program, exact' % len(ss)}
   kk = [r['known_kind'] for r in rs if r.get('known_kind')]
   if kk:
     v = kk[0]
